@@ -270,6 +270,10 @@ func (w *World) execTx(f []string) (res Result) {
 		}
 	}
 	line := "ok"
+	if r.Code == 111222 && r.Codespace == "undefined" {
+		// baseapp recovered an internal panic while running the transaction
+		return Result{Line: "panic", Detail: fmt.Sprintf("code=%d codespace=%s log=%.600s", r.Code, r.Codespace, r.Log), Panic: true}
+	}
 	if r.Code != 0 {
 		line = "err"
 	} else if isSettlementOnly(msgs) {
